@@ -214,7 +214,9 @@ func processFetchForMessage(deps ServerDeps, conn net.Conn, messageID, uid int64
 		return rawMsg
 	}
 
-	itemsUpper := strings.ToUpper(items)
+	// Offsets found in itemsUpper are used to slice items below, so the copy
+	// must keep the byte length: upper-case the ASCII letters only.
+	itemsUpper := asciiUpper(items)
 	responseParts := []string{}
 	var literalData string // Store literal data separately
 
@@ -314,7 +316,7 @@ func processFetchForMessage(deps ServerDeps, conn net.Conn, messageID, uid int64
 			end = start + end
 
 			sectionSpec := orig[start:end] // preserve original case/format for echo
-			sectionUpper := strings.ToUpper(sectionSpec)
+			sectionUpper := asciiUpper(sectionSpec)
 
 			// Only handle numeric sections here; others handled elsewhere
 			if len(sectionSpec) > 0 && sectionSpec[0] >= '0' && sectionSpec[0] <= '9' {
@@ -606,6 +608,20 @@ func processFetchForMessage(deps ServerDeps, conn net.Conn, messageID, uid int64
 	}
 }
 
+// asciiUpper upper-cases the ASCII letters of s and leaves every other byte
+// untouched, so that byte offsets found in the result are valid in s
+// (strings.ToUpper and strings.ToLower can change the length of non-ASCII
+// or invalid UTF-8 text).
+func asciiUpper(s string) string {
+	b := []byte(s)
+	for i, c := range b {
+		if 'a' <= c && c <= 'z' {
+			b[i] = c - 'a' + 'A'
+		}
+	}
+	return string(b)
+}
+
 // slicePartial returns the octets of data selected by a partial fetch
 // <start.length>. Per RFC 3501 section 6.4.5 a start at or beyond the end of
 // the data yields the empty string and the length is truncated to the data.
@@ -697,7 +713,7 @@ func extractSinglePart(message string, partNum int) string {
 				}
 			}
 			// Extract boundary
-			if idx := strings.Index(strings.ToLower(ctLine), "boundary="); idx != -1 {
+			if idx := strings.Index(asciiUpper(ctLine), "BOUNDARY="); idx != -1 {
 				boundaryPart := ctLine[idx+9:]
 				if len(boundaryPart) > 0 && boundaryPart[0] == '"' {
 					endQuote := strings.Index(boundaryPart[1:], "\"")
